@@ -175,6 +175,66 @@ fn c09_data_roundtrip_all_lengths_t() {
     }
 }
 
+/// One concrete payload length and SAP presence (addresses, SAP values, function code and one
+/// fill byte symbolic): the boundary lengths up to the frame limit are checked individually; with
+/// concrete length and layout every loop and every buffer index is constant, which keeps the
+/// 246-byte case cheap.
+fn roundtrip_len<const L: usize, const D: bool, const S: bool>() {
+    let da: u8 = kani::any();
+    let sa: u8 = kani::any();
+    kani::assume(da <= 127 && sa <= 127);
+    let h = DataTelegramHeader {
+        da,
+        sa,
+        dsap: if D { Some(kani::any()) } else { None },
+        ssap: if S { Some(kani::any()) } else { None },
+        fc: any_function_code(),
+    };
+    // concrete payload content: the content only flows through a copy and the additive checksum
+    // (symbolic content up to 64 bytes is the subject of c09_data_roundtrip_content_*)
+    let fill: u8 = 0xA5;
+    let mut buf = [0u8; 256];
+    let res = TelegramTx::new(&mut buf).send_data_telegram(h.clone(), L, |b| b.fill(fill));
+    let mut expect = [0u8; 256];
+    let elen = ref_encode(&h, L, |_| fill, &mut expect);
+    assert!(res.bytes_sent() == elen && h.telegram_len(L) == elen, "C09/len: bytes_sent and telegram_len equal the frame length");
+    let mut i = 0;
+    while i < elen {
+        assert!(buf[i] == expect[i], "C09/wire: serialised bytes equal the reference frame");
+        i += 1;
+    }
+    match Telegram::deserialize(&buf[..elen]) {
+        Some(Ok((Telegram::Data(t), n))) => {
+            assert!(n == elen && t.h == h && t.pdu.len() == L, "C09/roundtrip: decoded header and payload length identical, exactly the frame consumed");
+            let mut i = 0;
+            while i < L {
+                assert!(t.pdu[i] == fill, "C09/roundtrip: decoded payload identical");
+                i += 1;
+            }
+            kani::cover!(true, "cover: frame round-trips");
+        }
+        _ => assert!(false, "C09/roundtrip: an encoded data telegram decodes as a data telegram"),
+    }
+}
+
+macro_rules! roundtrip_len_harness {
+    ($name:ident, $l:expr, $d:expr, $s:expr) => {
+        #[kani::proof]
+        #[kani::unwind(258)]
+        fn $name() {
+            roundtrip_len::<$l, $d, $s>();
+        }
+    };
+}
+roundtrip_len_harness!(c09_roundtrip_len_246, 246, false, false);
+roundtrip_len_harness!(c09_roundtrip_len_245_dsap, 245, true, false);
+roundtrip_len_harness!(c09_roundtrip_len_245_ssap, 245, false, true);
+roundtrip_len_harness!(c09_roundtrip_len_244_both, 244, true, true);
+roundtrip_len_harness!(c09_roundtrip_len_128_both, 128, true, true);
+roundtrip_len_harness!(c09_roundtrip_len_8, 8, false, false);
+roundtrip_len_harness!(c09_roundtrip_len_7_dsap, 7, true, false);
+roundtrip_len_harness!(c09_roundtrip_len_9, 9, false, false);
+
 /// Structural sweep without payload content: every length selects the right start delimiter.
 #[kani::proof]
 #[kani::unwind(4)]
